@@ -210,8 +210,13 @@ class Exporter:
 
                 for node in next_nodes:
                     content = ''
-                    if isinstance(node.token, HeaderToken) and node.token.encoding in options.spine_types \
-                            and (options.spine_ids is None or node.token.spine_id in options.spine_ids):
+                    header_type = self.compute_header_type(node)
+                    if not (header_type is not None
+                            and header_type.encoding in options.spine_types
+                            and (options.spine_ids is None or header_type.spine_id in options.spine_ids)):
+                        new_next_nodes.append(node.parent)
+                        continue  # this spine is not exported: neither its header nor its spine operators are re-stated
+                    if isinstance(node.token, HeaderToken):
                         content = self.export_token(node, options)
                         non_place_holder_in_row = True
                     elif spine_operation_row:
